@@ -68,6 +68,18 @@ type ccCheck struct {
 	expr Expression
 }
 
+// bareDefault gives the value of an unquoted word used as a DEFAULT: TRUE and
+// FALSE are booleans, any other word is taken as text.
+func bareDefault(s string) interface{} {
+	switch strings.ToUpper(s) {
+	case "TRUE":
+		return true
+	case "FALSE":
+		return false
+	}
+	return s
+}
+
 func makeColumnDef(name string, typ string, cs []columnConstraint) ColumnDef {
 	cd := ColumnDef{
 		Name: name,
